@@ -100,7 +100,7 @@ prop("C33",
 
 
 prop("C04",
-     units=["atomic", "modelatomic", "cols", "rows"],
+     units=["atomic", "modelatomic", "renamesheet", "cols", "rows"],
      scans=["history-writers"],
      level="proof",
      claim="each user-model operation under contract (list in coverage.functions_under_contract) leaves engine state, undo/redo stacks and outgoing queue "
@@ -180,7 +180,7 @@ prop("C27",
 
 
 prop("C17",
-     units=["rename"],
+     units=["rename", "renamesheet"],
      level="proof",
      claim="rename_sheet_in_node, arm by arm: a reference/range with an explicit sheet name into the renamed sheet gets the new name, every other "
            "reference (other sheet index, no explicit name, or a sheet that does not exist) keeps its name, and all 13 composite arms visit every child with "
